@@ -63,6 +63,30 @@ def check_one(s):
     return None
 
 
+SEQ = (b"", b"A", b"~", b"PQ", b"abc", b"\xff\x00", b"Hello", b"}P}P", b"\x22\x7e\x50\x4f\x21", b"abcdef", b"z" * 7)
+
+
+def check_seq(seq):
+    """Several strings in a row through the full oracle: the codec must not remember earlier calls."""
+    for i, s in enumerate(seq):
+        w = check_one(bytes(s))
+        if w:
+            return f"in sequence {[bytes(x).hex() for x in seq]} at #{i}: {w}"
+    return None
+
+
+def _seq_shard(firsts):
+    loader.install_shims()
+    count, bad = 0, []
+    for a in firsts:
+        for rest in itertools.product(SEQ, repeat=2):
+            count += 1
+            w = check_seq([a] + list(rest))
+            if w and len(bad) < 3:
+                bad.append(([a] + list(rest), w))
+    return count, bad
+
+
 def _table_shard(shard):
     lengths, fillers = shard
     loader.install_shims()
@@ -111,7 +135,12 @@ def run(tier, seed):
         what = check_one(s)
         if what:
             bads.append((s, what))
+    res3 = par.pmap(_seq_shard, [[a] for a in SEQ])
+    n_seq = sum(r[0] for r in res3)
     violations = []
+    for r in res3:
+        for seq, what in r[1]:
+            violations.append({"key": "string-codec:sequence", "what": what, "case": {"seq": seq}})
     for s, what in bads:
         kind = what.split("(")[0].split(" ")[0]
         violations.append({"key": f"string-codec:{kind}:len{len(s) % 2}", "what": what, "case": {"s": s}})
@@ -122,8 +151,9 @@ def run(tier, seed):
         encode(e)
         samples.append({"s": s.hex(), "encoded": bytes(e).hex()})
     coverage = {
-        "evaluations": n_table + n_str,
-        "distinct_nontrivial": n_table + n_str - 1,
+        "evaluations": n_table + n_str + n_seq,
+        "distinct_nontrivial": n_table + n_str + n_seq - 1,
+        "call_sequences": n_seq,
         "byte_position_table_cases": n_table,
         "max_table_len": max_table_len,
         "short_strings": n_str,
@@ -135,7 +165,7 @@ def run(tier, seed):
             "each of 3 fillers - covers byte value x position parity x length parity completely; short strings: every "
             "string over the 9-symbol boundary alphabet up to short_string_max_len; each case checks encode and decode "
             "against M2 byte-exactly, both round trips (except 0x7E), length, 0x00/0xFF counts, range mapping, in-place "
-            "mutation.  Non-trivial = every case but the empty string."
+            "mutation; call_sequences: every ordered triple of 11 strings of mixed lengths through the same oracle (hidden-state detection).  Non-trivial = every case but the empty string."
         ),
         "samples": samples,
     }
@@ -144,4 +174,6 @@ def run(tier, seed):
 
 def replay(case):
     loader.install_shims()
+    if "seq" in case:
+        return check_seq([bytes(x) for x in case["seq"]])
     return check_one(bytes(case["s"]))
